@@ -289,7 +289,7 @@ func c13Declared(c *core.Ctx, t *c13Tally, typ byte, meta uint16, declared int, 
 var c13BlobTypes = []byte{ev.TTinyBlob, ev.TMediumBlob, ev.TLongBlob, ev.TBlob, ev.TGeometry}
 
 func c13BlobLens(w int) []int {
-	all := []int{0, 1, 255, 256, 257, 65535, 65536, 65537, 70001}
+	all := []int{0, 1, 255, 256, 257, 65535, 65536, 65537, 70001, 131069, 131070, 131071, 131072, 196607, 262143}
 	var out []int
 	for _, l := range all {
 		if l <= c09BlobCap(w) {
@@ -397,7 +397,7 @@ func c13Direct(c *core.Ctx, slot *int) {
 			}
 		}
 	}
-	c.ExhaustiveDomain("TINY/MEDIUM/LONG/BLOB (249..252) and GEOMETRY (255) x length bytes 1..4 x actual lengths {0,1,255,256,257,65535,65536,65537,70001, 2^24-1, 2^24, 2^24+1} (those the prefix can express) x 5 content classes (the three 16 MB lengths with one class each)")
+	c.ExhaustiveDomain("TINY/MEDIUM/LONG/BLOB (249..252) and GEOMETRY (255) x length bytes 1..4 x actual lengths {0,1,255,256,257,65535,65536,65537,70001, 131069..131072, 196607, 262143, 2^24-1, 2^24, 2^24+1} (those the prefix can express) x 5 content classes (the three 16 MB lengths with one class each)")
 	for k, v := range t.cells {
 		c.CellN("direct:"+k, v)
 	}
@@ -790,7 +790,7 @@ func c13Scenarios(c *core.Ctx) []c13Scn {
 
 func c13Check(c *core.Ctx) {
 	c.SetRule("Part 1 (direct CellBytes): for VARCHAR (15) and VAR_STRING (253) every declared maximum 0..65535, for CHAR/BINARY (TypeString) every declared length 0..1023, for TINY/MEDIUM/LONG/BLOB and GEOMETRY every length-byte count 1..4: " +
-		"payloads of the lengths {0,1,255,256,declared max} (blob family: {0,1,255,256,257,65535,65536,65537,70001} and, for 3/4 length bytes, 2^24-1, 2^24, 2^24+1) that the declaration allows, plus random lengths " +
+		"payloads of the lengths {0,1,255,256,declared max} (blob family: {0,1,255,256,257,65535,65536,65537,70001,131069..131072,196607,262143} and, for 3/4 length bytes, 2^24-1, 2^24, 2^24+1) that the declaration allows, plus random lengths " +
 		"(quick 3 / thorough 40 per declared VARCHAR maximum, 4 / 100 per CHAR length, another 40 / 400 for every declared length <= 600, 2000 / 30000 per blob type and width), content classes {random bytes, all 0x00, all 0xFF, valid UTF-8 with 1..4-byte characters, invalid UTF-8}, " +
 		"the cell placed after 0..16 filler bytes and before 0..8 filler bytes. Required: returned bytes == payload, non-nil also for length 0, consumed == prefix width + length, prefix width 2 iff declared > 255 (blob family: the metadata value). " +
 		"JSON is left to C14. A direct case is (type, metadata, length, content class, filler seed); every one counts as non-trivial (length 0 is a required class). " +
